@@ -252,7 +252,7 @@ fn stmt(counters: u8) -> impl Strategy<Value = Stmt> + Clone {
 pub fn run(ctx: &mut RunCtx) {
     ctx.assume("statements are commutative read-modify-write templates, so 'as if one at a time in some order' is equivalent to: every counter equals the sum of acknowledged deltas, every list holds exactly the acknowledged appends, every MERGE key exists once");
     ctx.assume("controlled schedules overtake a statement only at the cfg-guarded point between its snapshot acquisition and its writer-lock acquisition; the Python/Node bindings are not built here, their shared C entry point is what is driven");
-    let n = ctx.tier.pick(2400, 600_000);
+    let n = ctx.tier.pick(24_000, 600_000);
     ctx.explore(
         "overtaking-schedules",
         "sequences of auto-commit statements (counter increment, list append, MERGE-once) where each statement is overtaken, between its snapshot and its writer lock, by a generated list of complete other statements; non-trivial = an overtaking statement touches the same entity",
@@ -270,7 +270,7 @@ pub fn run(ctx: &mut RunCtx) {
         },
         sched_test,
     );
-    let m = ctx.tier.pick(240, 30_000);
+    let m = ctx.tier.pick(1500, 30_000);
     ctx.explore(
         "thread-stress",
         "2-4 real threads each issuing up to 20 generated statements against shared counters through ndb_execute_write; same oracle; the interleaving is whatever the OS produces (any interleaving must satisfy the oracle); non-trivial = at least two threads with statements",
